@@ -274,9 +274,23 @@ def task_itermesh(ctx, tid, t):
     m = ph.mesh
     qpts = np.array(m.qpoints)
     yield
+    # a pass that the caller gives up after k items, then a full pass: the second pass starts at the first q-point again
+    k = t.get("abandon", 0)
+    if k:
+        n = 0
+        for _f, _v in m:
+            n += 1
+            if n >= k:
+                break
+            yield
+        ctx.probes["itermesh_iteration_abandoned"] = ctx.probes.get("itermesh_iteration_abandoned", 0) + 1
     it = iter(m)
     for i in range(len(qpts)):
-        f, v = next(it)
+        try:
+            f, v = next(it)
+        except StopIteration:
+            ctx.violations.append({"class": "iteration-restart", "site": "itermesh", "detail": "pass after an abandoned pass (%d items) yields %d of %d q-points" % (k, i, len(qpts))})
+            return
         ctx.report(tid, "itermesh", qpts[i], freq=f, vecs=v)
         yield
     try:
